@@ -84,7 +84,7 @@ func (c c13case) lateDelay() time.Duration {
 
 // holdDelay is how long a blocked Write is held (0 = until the case ends).
 func (c c13case) holdDelay() time.Duration {
-	if c.Pattern == "blockwrite:5T" {
+	if c.Pattern == "blockwrite:5T" || c.Pattern == "stallconnect:5T" {
 		return 5 * c.T()
 	}
 	return 0
@@ -108,6 +108,11 @@ var c13combos = []combo{
 	{"adapter", "oneway", "blockwrite:forever"},
 	{"adapter", "oneway", "blockflush:ctx"},
 	{"adapter", "oneway", "blockflush:noctx"},
+	{"adapter", "request", "stallconnect:5T"},
+	{"adapter", "request", "stallconnect:forever"},
+	{"adapter", "oneway", "stallconnect:5T"},
+	{"adapter", "oneway", "stallconnect:forever"},
+	{"nats", "request", "stalledconn"},
 	{"nats", "request", "silent"},
 	{"nats", "request", "late:T+50ms"},
 	{"nats", "request", "late:2T"},
@@ -208,6 +213,16 @@ func c13cases(rng *rand.Rand, thorough bool) (main, sub, controls []c13case) {
 		}
 	}
 	rng.Shuffle(len(main), func(i, j int) { main[i], main[j] = main[j], main[i] })
+	// cases that cost 10 s per attempt when they fail run in the side lane
+	keep := main[:0]
+	for _, c := range main {
+		if c.Pattern == "stalledconn" {
+			sub = append(sub, c)
+		} else {
+			keep = append(keep, c)
+		}
+	}
+	main = keep
 	return
 }
 
@@ -248,7 +263,7 @@ func runC13(tier string, args []string) int {
 		os.Setenv("VERIF_OUT", ev.ScratchDir()) // a replay never overwrites the committed evidence
 	}
 	run := ev.New("C13", tier, "exploration")
-	run.Rule("case = (transport, timeout T, peer stall pattern, Request|Oneway); adapter over a scripted TTransport (silent, response late by T+50ms / 2T / 2T+400ms, Write blocked for 5T or for good, Flush blocked with and without honouring ctx), NATS on an embedded broker (subscriber that never replies, or replies late), HTTP against httptest (handler answering late, never, or stalling the body); each case attempted 3 times on fresh transports, minimum elapsed compared with T+max(300ms,T); distinct = (transport, op, pattern, T)")
+	run.Rule("case = (transport, timeout T, peer stall pattern, Request|Oneway); adapter over a scripted TTransport (silent, response late by T+50ms / 2T / 2T+400ms, Write blocked for 5T or for good, Flush blocked with and without honouring ctx, underlying Open() stalled for 5T / for good while the call is issued), NATS on an embedded broker (subscriber that never replies, or replies late, or the client-broker TCP connection black-holed by a proxy after a healthy control request), HTTP against httptest (handler answering late, never, or stalling the body); each case attempted 3 times on fresh transports, minimum elapsed compared with T+max(300ms,T); distinct = (transport, op, pattern, T)")
 	run.Assume("monotonic clock of the Go runtime; a delay present in all 3 attempts of a case is attributed to the code, not to scheduling")
 	run.Assume("rig.ScriptTransport, the embedded nats-server and net/http/httptest behave as scripted")
 	run.Assume("goroutine ids parsed from runtime.Stack identify the calling goroutine in the full dump")
@@ -324,7 +339,7 @@ func runC13(tier string, args []string) int {
 		}()
 	}
 	lane(mainCases, workers) // timing lane: low parallelism
-	lane(subCases, 1)        // sub-millisecond lane: mostly parked when the candidate finding is present
+	lane(subCases, 1)        // side lane: sub-millisecond and stalled-connection cases (10 s per attempt when they fail)
 	wg.Wait()
 
 	// evidence
@@ -396,15 +411,23 @@ func runCase(env *c13env, c c13case, body func() []byte) caseResult {
 		var a *attempt
 		switch c.Transport {
 		case "adapter":
-			a = attemptAdapter(c, body())
+			if strings.HasPrefix(c.Pattern, "stallconnect:") {
+				a = attemptAdapterStalledConnect(c, body())
+			} else {
+				a = attemptAdapter(c, body())
+			}
 		case "nats":
-			a = attemptNats(env, c, body())
+			if c.Pattern == "stalledconn" {
+				a = attemptNatsStalledConn(env, c, body())
+			} else {
+				a = attemptNats(env, c, body())
+			}
 		case "http":
 			a = attemptHTTP(c, body())
 		}
 		a.N = i + 1
 		res.attempts = append(res.attempts, a)
-		if !a.Returned {
+		if !a.Returned || a.Harness != "" {
 			break // a 10 s park is not scheduling noise: no need to repeat it
 		}
 	}
@@ -432,6 +455,16 @@ func judge(run *ev.Run, st *c13stats, c c13case, res *caseResult) {
 	}
 	sig := func(kind string) string { return "C13:" + kind + ":" + c.class() }
 
+	for _, a := range res.attempts {
+		if a.Harness != "" {
+			run.Inconclusive(fmt.Sprintf("%s: the scenario could not be set up: %s", c.key(), a.Harness))
+			return
+		}
+		if c.Pattern == "stalledconn" && a.Returned && a.ConnStatus != "CONNECTED" {
+			run.Inconclusive(fmt.Sprintf("%s: the NATS client did not stay CONNECTED during the stall (%s)", c.key(), a.ConnStatus))
+			return
+		}
+	}
 	minEl := time.Duration(1<<62 - 1)
 	st.mu.Lock()
 	for _, a := range res.attempts {
@@ -521,6 +554,9 @@ func judge(run *ev.Run, st *c13stats, c c13case, res *caseResult) {
 
 	// 3. wrong error class although the peer provably had not answered
 	for _, a := range res.attempts {
+		if strings.HasPrefix(c.Pattern, "stallconnect:") {
+			break // transport not open yet: any error class is acceptable, only the time bound is asserted
+		}
 		if a.AnsweredBeforeReturn {
 			run.Add("attempts_response_raced_timeout", 1)
 			continue // response racing the timeout: both outcomes are legal
